@@ -153,6 +153,41 @@ Fixpoint max_run_go (cur best : nat) (l : list robs) : nat :=
   end.
 Definition max_redirect_run (l : list robs) : nat := max_run_go O O l.
 
+(* ------------------------------------------------------------------ failure causes *)
+
+(** WHY a request fails is the environment's business. The handlers pass the cause to respondError, which uses it for
+    the log line only: the status, the counter cookie and the decision redirect / error page do not depend on it.
+    The browser scripts name a cause with every injected failure (the driver arranges exactly that fault on the real
+    stack); the handler model sees the status alone. *)
+Inductive fcause :=
+| FcUnspecified        (* as injected before causes were told apart: provider answers 4xx / error parameter, bad state,
+                          missing login cookie *)
+| FcProvider5xx        (* the provider endpoint answers 5xx for the whole retry budget *)
+| FcProviderMalformed  (* 2xx with a body that does not decode *)
+| FcProviderTimeout    (* the endpoint accepts the connection and never answers: the client's own timeout fires
+                          (context.DeadlineExceeded in the error chain) *)
+| FcProviderRefused    (* connection refused *)
+| FcClientCanceled     (* the request's context is cancelled while the handler waits for the provider
+                          (context.Canceled in the error chain) *)
+| FcStore              (* a session-store operation fails *)
+| FcStoreTimeout       (* ... with a deadline error in its chain *)
+| FcStoreCanceled.     (* ... with a cancellation in its chain *)
+
+Definition fault_of_cause (st : Z) (k : fcause) : cfault := CFErr st.
+
+(** The counter machine with the cause made explicit, and with a parameter saying which causes are COUNTED (written
+    into the cookie). The code counts all of them ([fun _ => true], [counter_step]); the parameter exists to state
+    why it has to: see Proofs/RetryP.v [uncounted_cause_loops]. The decision is taken on the counter read, as in
+    respondError; only the value written differs. *)
+Definition counter_step_sel (counted : fcause -> bool) (c : option Z) (st : Z) (k : fcause) : option Z * robs :=
+  let '(c', o) := counter_step c (EvFail st) in ((if counted k then c' else c), o).
+
+Fixpoint counter_run_sel (counted : fcause -> bool) (c : option Z) (evs : list (Z * fcause)) : list robs :=
+  match evs with
+  | [] => []
+  | (st, k) :: r => let '(c', o) := counter_step_sel counted c st k in o :: counter_run_sel counted c' r
+  end.
+
 (* ------------------------------------------------------------------ rate limit, abstract *)
 
 (* logincount cookie in the browser: value and expiry *)
